@@ -20,6 +20,9 @@ CHECKS = {
  "C12": dict(level="exploration", technique="property-based testing (proptest): generated request/notification sequences against the in-memory LSP server, one-response-per-id oracle with event-based no-response detection and liveness probes",
    text="Sequences over all advertised methods and unknown ones with well-typed arbitrary parameters (unknown uris, huge positions, stale/missing code-action data, unknown commands); every request id must get exactly one response, probes must be answered, shutdown/exit must end the loop.",
    note="A request counts as unanswered when its worker thread is seen to panic (hook) and no response was sent; a 30 s backstop ends in inconclusive, not violation.", ref="7/C12"),
+ "C13": dict(level="exploration", technique="property-based testing (proptest): generated notes with multi-byte text and CRLF, position probes derived from an independent offset-tracking scan and own UTF-16 line table",
+   text="For every link of a generated note the harness computes the LSP span from byte offsets with its own line table and probes inside / outside positions: definition and prepare-rename must act exactly inside, go to the resolved note, return the destination range; symbol lines must be heading lines.",
+   note="Boundary positions of a span are not judged; single-line links only.", ref="7/C13"),
  "C03": dict(level="exploration", technique="property-based testing and fuzzing: hostile structured documents and scale family, crash/abort/hang oracle via panic hook and worker process status",
    text="Every generated document is loaded, formatted, searched, path-listed, probed at every line, updated and driven through the in-memory LSP server; oracle is absence of panic, abort and hang.",
    note="Release build without overflow checks (what ships). Hang detection is a 10^4x watchdog, not a termination proof.", ref="7/C03"),
